@@ -21,6 +21,8 @@ import (
 	. "verif/harness/kit"
 
 	"github.com/skycoin/skycoin/src/cipher"
+	"github.com/skycoin/skycoin/src/cipher/bip39"
+	"github.com/skycoin/skycoin/src/cipher/bip44"
 	"github.com/skycoin/skycoin/src/cipher/crypto"
 	"github.com/skycoin/skycoin/src/util/logging"
 	"github.com/skycoin/skycoin/src/wallet"
@@ -47,6 +49,7 @@ var sentinels = map[error]string{
 	wallet.ErrWalletTypeNotRecoverable: "ErrWalletTypeNotRecoverable",
 	wallet.ErrWalletPermission:         "ErrWalletPermission",
 	wallet.ErrEncryptTempWallet:        "ErrEncryptTempWallet",
+	wallet.ErrMissingXPub:              "ErrMissingXPub",
 }
 
 var errFn = errors.New("callback failed")
@@ -72,6 +75,12 @@ func errClass(err error) string {
 		return "ErrFingerprintConflict"
 	case strings.HasPrefix(m, "RecoverWallet failed to create temporary wallet"):
 		return "ERecoverCreate"
+	case strings.HasPrefix(m, "missing password for encrypting wallet"):
+		return "EBip44MissingPassword"
+	case strings.Contains(m, "xpub wallet does not support encryption"):
+		return "EXpubNoEncrypt"
+	case strings.HasPrefix(m, "password is not required for scanning bip44"):
+		return "EBip44ScanPassword"
 	case strings.Contains(m, "does not implement ScanAddresses"):
 		return "ENoScan"
 	case strings.Contains(m, "no such file or directory"):
@@ -84,11 +93,66 @@ func errClass(err error) string {
 
 var (
 	names  = []string{"a.wlt", "b.wlt", "c.wlt", "d.wlt"}
-	seeds  = []string{"", "seed one", "seed two", "seed three", "seed four"}
+	seeds  = mkSeeds() // "", then four fixed bip39 mnemonics (valid for deterministic and bip44 wallets)
+	xpubs  = mkXPubs() // "", then one extended public key per mnemonic
 	labels = []string{"", "label-1", "label-2", "label-3", "label-4"}
 	pws    = []string{"", "pw-1", "pw-2", "pw-3"}
-	types  = map[int]string{0: wallet.WalletTypeDeterministic, 1: wallet.WalletTypeCollection, 9: "nosuchtype"}
+	types  = map[int]string{0: wallet.WalletTypeDeterministic, 1: wallet.WalletTypeCollection, 2: wallet.WalletTypeBip44, 3: wallet.WalletTypeXPub, 9: "nosuchtype"}
 )
+
+func mkSeeds() []string {
+	out := []string{""}
+	for i := 1; i <= 4; i++ {
+		ent := make([]byte, 16)
+		for j := range ent {
+			ent[j] = byte(i*37 + j*11)
+		}
+		m, err := bip39.NewMnemonic(ent)
+		if err != nil {
+			panic(err)
+		}
+		out = append(out, m)
+	}
+	return out
+}
+
+func mkXPubs() []string {
+	out := []string{""}
+	for _, m := range mkSeeds()[1:] {
+		sd, err := bip39.NewSeed(m, "")
+		if err != nil {
+			panic(err)
+		}
+		c, err := bip44.NewCoin(sd, bip44.CoinTypeSkycoin)
+		if err != nil {
+			panic(err)
+		}
+		a, err := c.Account(0)
+		if err != nil {
+			panic(err)
+		}
+		e, err := a.External()
+		if err != nil {
+			panic(err)
+		}
+		out = append(out, e.PublicKey().String())
+	}
+	return out
+}
+
+// the text of a seed id for a wallet type
+func seedText(typ, id int) string {
+	if typ == 3 {
+		if id == 0 {
+			return ""
+		}
+		return "xpub-" + fmt.Sprint(id)
+	}
+	if id == 0 {
+		return ""
+	}
+	return "mnemonic-" + fmt.Sprint(id)
+}
 
 type Op struct {
 	Kind  string
@@ -102,6 +166,9 @@ type Op struct {
 	Temp  bool
 	Dfail bool
 	Fok   bool
+	Chg   bool // NewAddr: on the change chain (wallet.OptionChange)
+	Ea    int  // Scan: index+1 of the last scanned external address with activity (0 = none)
+	Ca    int  // Scan: same on the change chain
 }
 
 func (o Op) Coq() string {
@@ -110,9 +177,9 @@ func (o Op) Coq() string {
 	case "Create":
 		return fmt.Sprintf("(Create %s %d %d %d %s %d %d %s %s)", n, o.Typ, o.Seed, o.Label, B(o.Enc), o.Pw, o.N, B(o.Temp), B(o.Dfail))
 	case "NewAddr":
-		return fmt.Sprintf("(NewAddr %s %d %d %s)", n, o.Pw, o.N, B(o.Dfail))
+		return fmt.Sprintf("(NewAddr %s %d %d %s %s)", n, o.Pw, o.N, B(o.Chg), B(o.Dfail))
 	case "Scan":
-		return fmt.Sprintf("(Scan %s %d %d %s)", n, o.Pw, o.N, B(o.Dfail))
+		return fmt.Sprintf("(Scan %s %d %d %d %d %s)", n, o.Pw, o.N, o.Ea, o.Ca, B(o.Dfail))
 	case "SetLabel":
 		return fmt.Sprintf("(SetLabel %s %d %s)", n, o.Label, B(o.Dfail))
 	case "Encrypt":
@@ -135,15 +202,17 @@ func (o Op) Text() string {
 	s := o.Kind + "(" + o.Name
 	switch o.Kind {
 	case "Create":
-		s += fmt.Sprintf(",type=%s,seed=%q,label=%q,encrypt=%v,pw=%q,n=%d,temp=%v", types[o.Typ], seeds[o.Seed], labels[o.Label], o.Enc, pws[o.Pw], o.N, o.Temp)
-	case "NewAddr", "Scan":
-		s += fmt.Sprintf(",pw=%q,n=%d", pws[o.Pw], o.N)
+		s += fmt.Sprintf(",type=%s,seed=%q,label=%q,encrypt=%v,pw=%q,n=%d,temp=%v", types[o.Typ], seedText(o.Typ, o.Seed), labels[o.Label], o.Enc, pws[o.Pw], o.N, o.Temp)
+	case "NewAddr":
+		s += fmt.Sprintf(",pw=%q,n=%d,change-chain=%v", pws[o.Pw], o.N, o.Chg)
+	case "Scan":
+		s += fmt.Sprintf(",pw=%q,n=%d,last-active-external=%d,last-active-change=%d", pws[o.Pw], o.N, o.Ea, o.Ca)
 	case "SetLabel":
 		s += fmt.Sprintf(",label=%q", labels[o.Label])
 	case "Encrypt", "Decrypt":
 		s += fmt.Sprintf(",pw=%q", pws[o.Pw])
 	case "Recover":
-		s += fmt.Sprintf(",seed=%q,newpw=%q", seeds[o.Seed], pws[o.Pw])
+		s += fmt.Sprintf(",seed=%q,newpw=%q", seedText(0, o.Seed), pws[o.Pw])
 	case "UpdSecrets":
 		s += fmt.Sprintf(",pw=%q,callback_ok=%v,label=%q", pws[o.Pw], o.Fok, labels[o.Label])
 	case "Upd":
@@ -165,14 +234,15 @@ type AW struct {
 	Enc   bool
 	Pw    int
 	N     int
+	C     int
 	Temp  bool
 }
 
 func (a AW) Coq() string {
-	return fmt.Sprintf("(mkW %s %s %s %s %s %s %s %s)", Str(a.Name), ZI(int64(a.Typ)), ZI(int64(a.Seed)), ZI(int64(a.Label)), B(a.Enc), ZI(int64(a.Pw)), ZI(int64(a.N)), B(a.Temp))
+	return fmt.Sprintf("(mkW %s %s %s %s %s %s %s %s %s)", Str(a.Name), ZI(int64(a.Typ)), ZI(int64(a.Seed)), ZI(int64(a.Label)), B(a.Enc), ZI(int64(a.Pw)), ZI(int64(a.N)), ZI(int64(a.C)), B(a.Temp))
 }
 func (a AW) Text() string {
-	return fmt.Sprintf("%s{type=%d seed=%d label=%d enc=%v pw=%d n=%d temp=%v}", a.Name, a.Typ, a.Seed, a.Label, a.Enc, a.Pw, a.N, a.Temp)
+	return fmt.Sprintf("%s{type=%d seed=%d label=%d enc=%v pw=%d n=%d change=%d temp=%v}", a.Name, a.Typ, a.Seed, a.Label, a.Enc, a.Pw, a.N, a.C, a.Temp)
 }
 
 type abstractor struct {
@@ -187,6 +257,10 @@ func (ab *abstractor) wallet(w wallet.Wallet) AW {
 		a.Typ = 0
 	case wallet.WalletTypeCollection:
 		a.Typ = 1
+	case wallet.WalletTypeBip44:
+		a.Typ = 2
+	case wallet.WalletTypeXPub:
+		a.Typ = 3
 	}
 	for i, l := range labels {
 		if l == w.Label() {
@@ -201,11 +275,23 @@ func (ab *abstractor) wallet(w wallet.Wallet) AW {
 			ab.bad = append(ab.bad, "unknown fingerprint "+fp)
 		}
 	}
-	n, err := w.EntriesLen()
-	if err != nil {
-		n = -1
+	if a.Typ == 2 { // per-chain entry counts of account 0
+		n, err := w.EntriesLen(wallet.OptionExternal())
+		if err != nil {
+			n = -1
+		}
+		c, err := w.EntriesLen(wallet.OptionChange())
+		if err != nil {
+			c = -1
+		}
+		a.N, a.C = n, c
+	} else {
+		n, err := w.EntriesLen()
+		if err != nil {
+			n = -1
+		}
+		a.N = n
 	}
-	a.N = n
 	if a.Enc {
 		a.Pw = -1
 		for i := 1; i < len(pws); i++ {
@@ -244,13 +330,27 @@ func viewText(v []AW) string {
 }
 
 func cfg(dir string) wallet.Config {
-	return wallet.Config{WalletDir: dir, CryptoType: crypto.CryptoTypeSha256Xor, EnableWalletAPI: true}
+	bc := bip44.CoinTypeSkycoin
+	return wallet.Config{WalletDir: dir, CryptoType: crypto.CryptoTypeSha256Xor, EnableWalletAPI: true, Bip44Coin: &bc}
 }
 
-type noActivity struct{}
+// chainActivity is a transactions finder that reports activity per chain: the
+// wallets ask once per chain (bip44: external first, then change; the others
+// once); call i marks the address of index keep[i]-1 among the scanned ones.
+type chainActivity struct {
+	keep  []int
+	calls int
+}
 
-func (noActivity) AddressesActivity(addrs []cipher.Addresser) ([]bool, error) {
-	return make([]bool, len(addrs)), nil
+func (c *chainActivity) AddressesActivity(addrs []cipher.Addresser) ([]bool, error) {
+	out := make([]bool, len(addrs))
+	if c.calls < len(c.keep) {
+		if k := c.keep[c.calls]; k >= 1 && k <= len(addrs) {
+			out[k-1] = true
+		}
+	}
+	c.calls++
+	return out, nil
 }
 
 func copyDir(src, dst string) error {
@@ -297,8 +397,13 @@ func apply(s *wallet.Service, dir string, o Op, ab *abstractor, genN *int) (Op, 
 	switch o.Kind {
 	case "Create":
 		var w wallet.Wallet
-		w, err = s.CreateWallet(o.Name, wallet.Options{Type: types[o.Typ], Seed: seeds[o.Seed], Label: labels[o.Label],
-			Encrypt: o.Enc, Password: pw, CryptoType: crypto.CryptoTypeSha256Xor, GenerateN: uint64(o.N), Temp: o.Temp})
+		opts := wallet.Options{Type: types[o.Typ], Seed: seeds[o.Seed], Label: labels[o.Label],
+			Encrypt: o.Enc, Password: pw, CryptoType: crypto.CryptoTypeSha256Xor, GenerateN: uint64(o.N), Temp: o.Temp}
+		if o.Typ == 3 {
+			opts.Seed = ""
+			opts.XPub = xpubs[o.Seed]
+		}
+		w, err = s.CreateWallet(o.Name, opts)
 		if err == nil {
 			o.Name = w.Filename()
 			if fp := w.Fingerprint(); fp != "" {
@@ -312,9 +417,13 @@ func apply(s *wallet.Service, dir string, o Op, ab *abstractor, genN *int) (Op, 
 			o.Name = fmt.Sprintf("generated-%d.wlt", *genN)
 		}
 	case "NewAddr":
-		_, err = s.NewAddresses(o.Name, pw, wallet.OptionGenerateN(uint64(o.N)))
+		if o.Chg {
+			_, err = s.NewAddresses(o.Name, pw, wallet.OptionGenerateN(uint64(o.N)), wallet.OptionChange())
+		} else {
+			_, err = s.NewAddresses(o.Name, pw, wallet.OptionGenerateN(uint64(o.N)))
+		}
 	case "Scan":
-		_, err = s.ScanAddresses(o.Name, pw, uint64(o.N), noActivity{})
+		_, err = s.ScanAddresses(o.Name, pw, uint64(o.N), &chainActivity{keep: []int{o.Ea, o.Ca}})
 	case "SetLabel":
 		err = s.UpdateWalletLabel(o.Name, labels[o.Label])
 	case "Encrypt":
@@ -384,8 +493,14 @@ func genOp(r *Rng, mem []AW, everCreated []string) Op {
 		if r.Chance(45) {
 			o.Name = names[r.Intn(len(names))]
 		}
-		if r.Chance(20) {
+		switch k := r.Intn(100); {
+		case k < 15:
 			o.Typ = 1
+		case k < 50:
+			o.Typ = 2
+		case k < 62:
+			o.Typ = 3
+			o.Seed = 1 + r.Intn(len(xpubs)-1)
 		}
 		if r.Chance(25) {
 			o.Enc = true
@@ -413,11 +528,24 @@ func genOp(r *Rng, mem []AW, everCreated []string) Op {
 		return o
 	case k < 40:
 		n := pickName()
-		return Op{Kind: "NewAddr", Name: n, Pw: pwFor(n), N: r.Intn(4), Dfail: dfail}
-	case k < 46:
+		return Op{Kind: "NewAddr", Name: n, Pw: pwFor(n), N: r.Intn(4), Chg: r.Chance(35), Dfail: dfail}
+	case k < 50:
 		n := pickName()
-		return Op{Kind: "Scan", Name: n, Pw: pwFor(n), N: r.Intn(4), Dfail: dfail}
-	case k < 56:
+		o := Op{Kind: "Scan", Name: n, Pw: pwFor(n), N: r.Intn(5), Dfail: dfail}
+		if w := find(n); w != nil && w.Typ == 2 && r.Chance(85) {
+			o.Pw = 0 // bip44 wallets are scanned without a password
+		}
+		// activity per chain: none / on one chain only / on both
+		if o.N > 0 {
+			if r.Chance(50) {
+				o.Ea = 1 + r.Intn(o.N)
+			}
+			if r.Chance(50) {
+				o.Ca = 1 + r.Intn(o.N)
+			}
+		}
+		return o
+	case k < 58:
 		l := 1 + r.Intn(len(labels)-1)
 		if r.Chance(10) {
 			l = 0 // an empty label is accepted by the service
